@@ -27,7 +27,7 @@ func init() {
 			{"TXN-SHAPE", ruleTxnShape},
 		},
 		Meta: eng.PropMeta{
-			Explanation: "Decides the structural conditions of 'schema evolution never alters existing data': (SCHEMA-CONFINEMENT) the call-graph cones of patchSchema, updateSchema and setActiveSchemaVersion reach the transaction's system store but no accessor of the document data store, head store or block store — evolving a schema cannot touch values, heads or commits; (UNKNOWN-FIELD-SKIP) during a merge a field unknown to the local schema version yields a skipped block (nil CRDT, nil error), never an error — peers on a newer version stay mergeable; (VERSION-FLIP) setActiveSchemaVersion saves the target version as active and, when another version was active, that one as inactive, both before the type system is reloaded, in the caller's transaction; (TXN-SHAPE) PatchSchema/PatchCollection/SetActiveSchemaVersion commit only on success. (VERSION-SEARCH-EXHAUSTIVE) the search for the active version above a version descends into every child version; (FIELD-IDS-ALWAYS) description.SaveCollection assigns short field ids before every successful exit, also for a version saved inactive.",
+			Explanation: "Decides the structural conditions of 'schema evolution never alters existing data': (SCHEMA-CONFINEMENT) the call-graph cones of patchSchema, updateSchema and setActiveSchemaVersion reach the transaction's system store but no accessor of the document data store, head store or block store — evolving a schema cannot touch values, heads or commits; (UNKNOWN-FIELD-SKIP) during a merge a field unknown to the local schema version yields a skipped block (nil CRDT, nil error), never an error — peers on a newer version stay mergeable; (VERSION-FLIP) setActiveSchemaVersion saves the target version as active and, when another version was active, that one as inactive, both before the type system is reloaded, in the caller's transaction; (TXN-SHAPE) PatchSchema/PatchCollection/SetActiveSchemaVersion commit only on success. (VERSION-SEARCH-EXHAUSTIVE) the search for the active version above a version descends into every child version; (FIELD-IDS-ALWAYS) description.SaveCollection assigns short field ids before every successful exit, also for a version saved inactive. (FIELD-IDS-EVERY-FIELD) id.SetShortFieldIDs reports success only after the loop over all fields of the version; (EVENT-COLLECTION-ID) every update event built in internal/db is addressed with the collection version's CollectionID (constant across schema versions), never a version id.",
 			NotDecided:  "readability of every document under the active version (lens migrations, defaults), agreement of nodes on different versions over the fields both know for all histories",
 		},
 	})
